@@ -6,11 +6,20 @@ Correspondence
       (incl. chained ones) vs the Lean model, cdf / icdf / pdf, in the call shapes the contour
       classes use: vector x & vector given (IFORM), scalar & scalar (ISORM), vector x & scalar
       given (HDC); bit-exact.  draw_sample on a replayed uniform stream.
-  (B) every shipped family as template x every partition of its parameters into fixed /
-      dependent (>= 1 dependent) x random dependence functions: compared with *constructed*
-      instances Family(**values).m(x_j), one pair at a time (the reference the property names).
+  (B) every shipped family (and two ScipyDistribution subclasses) as template x every partition of
+      its parameters into fixed / dependent (also: all fixed) x random dependence functions:
+      compared with *constructed* instances Family(**values).m(x_j), one pair at a time (the
+      reference the property names); bulk quantiles, p -> 0/1, x outside the support.
   (C) keyword binding of dependence-function parameters: position of the bound parameter vs
       the Lean `bindCall` (TypeError iff not trailing).
+  (D) draw_sample through every shipped / ScipyDistribution template: same seed => the very sample of
+      the template constructed at the (broadcast) dependence values; (n, k) for a vector given of
+      length k, (n,) for a scalar given; size vs the Lean `rvsSize (condParShapes ..)`.
+  (E) "defaults": dependence callables whose parameters come from the signature (defaults, implicit 1),
+      never overwritten; the explicit-parameter call dep(x, *args, **kwargs) and its arity rule vs
+      the Lean `defaultParams` / `callMode`.
+  (F) ONE dependence-function object used as a template parameter AND inside another parameter's
+      dependence function (doubles: bit-exact + model; shipped families through (B)/(D)).
 """
 import itertools
 import warnings
@@ -61,10 +70,14 @@ def call_shape(shape, xs, gs):
 
 def process_double(ck, case):
     desc = doubles.model_from_desc(case["model"])
-    model = desc.build()
-    cond = model.distributions[1]
-    x, g = call_shape(case["shape"], case["x"], case["g"])
     ck.case(case, nontrivial=desc.n_dependent() >= 1)
+    try:
+        cond = desc.build().distributions[1]
+    except Exception as e:  # noqa: BLE001
+        ck.fail({"entry": "ConditionalDistribution", "predicate": "constructs", "template": "RatDist"}, case,
+                f"{type(e).__name__}: {e}")
+        return
+    x, g = call_shape(case["shape"], case["x"], case["g"])
     ck.count("part=A")
     ck.count("A_shape=" + case["shape"])
     ck.count("A_method=" + case["method"])
@@ -128,16 +141,28 @@ def process_double_sampling(ck, rng):
 
 def run_double_sampling(ck, case):
     m = doubles.model_from_desc(case["model"])
-    cond = m.build().distributions[1]
+    try:
+        cond = m.build().distributions[1]
+    except Exception as e:  # noqa: BLE001
+        ck.case(case, nontrivial=m.n_dependent() >= 1, sample=False)
+        ck.fail({"entry": "ConditionalDistribution", "predicate": "constructs", "template": "RatDist"}, case,
+                f"{type(e).__name__}: {e}")
+        return
     gs = np.array(case["g"], dtype=float)
     k, seed = len(gs), case["seed"]
     int_given = case["given_dtype"].startswith("int")
-    if case["given_dtype"].endswith("-scalar"):
-        got = np.asarray(cond.draw_sample(k, int(gs[0]) if int_given else float(gs[0]), random_state=seed), dtype=float).ravel()
-        u = np.random.default_rng(seed).uniform(size=k).ravel()
-    else:
-        got = np.asarray(cond.draw_sample(1, gs.astype(np.int64) if int_given else gs, random_state=seed), dtype=float).ravel()
-        u = np.random.default_rng(seed).uniform(size=(1, k)).ravel()
+    try:
+        if case["given_dtype"].endswith("-scalar"):
+            got = np.asarray(cond.draw_sample(k, int(gs[0]) if int_given else float(gs[0]), random_state=seed), dtype=float).ravel()
+            u = np.random.default_rng(seed).uniform(size=k).ravel()
+        else:
+            got = np.asarray(cond.draw_sample(1, gs.astype(np.int64) if int_given else gs, random_state=seed), dtype=float).ravel()
+            u = np.random.default_rng(seed).uniform(size=(1, k)).ravel()
+    except Exception as e:  # noqa: BLE001
+        ck.case(case, nontrivial=m.n_dependent() >= 1, sample=False)
+        ck.fail({"entry": "ConditionalDistribution.draw_sample", "predicate": "evaluates", "template": "RatDist"}, case,
+                f"{type(e).__name__}: {e}")
+        return
     ck.count("A_draw_sample_given=" + case["given_dtype"])
     ck.case(case, nontrivial=m.n_dependent() >= 1, sample=False)
     ck.count("A_draw_sample")
@@ -163,6 +188,7 @@ def family_table():
     import scipy.stats as sts
     from virocon import (ExponentiatedWeibullDistribution, GeneralizedGammaDistribution, LogNormalDistribution,
                          NormalDistribution, ScipyDistribution, VonMisesDistribution, WeibullDistribution)
+    from virocon.distributions import LogNormalNormFitDistribution
 
     class GammaDistribution(ScipyDistribution):
         scipy_dist_name = "gamma"
@@ -180,76 +206,184 @@ def family_table():
         "VonMises": (VonMisesDistribution, {"kappa": (0.3, 4), "mu": (0.5, 5.5)}),
         "ScipyGamma": (GammaDistribution, {"a": (0.8, 4), "loc": (0, 1), "scale": (0.5, 3)}),
         "ScipyGumbel": (GumbelDistribution, {"loc": (-2, 6), "scale": (0.4, 2.0)}),
+        # parameters are mean / standard deviation of the variable itself: own _get_scipy_parameters
+        "LogNormalNormFit": (LogNormalNormFitDistribution, {"mu_norm": (1.0, 6.0), "sigma_norm": (0.3, 2.5)}),
     }
+
+
+def _const1(x, a):
+    """a dependence function that returns a SCALAR whatever the shape of x (constant parameter)"""
+    return a
+
+
+def _outer_shared(x, a, b, d):
+    """dependence function that takes another dependence function `d` as parameter"""
+    return a * (1 + b * np.tanh(d(x)))
+
+
+DEP_FUNCS = dict(models.DEP_FUNCS, const1=_const1)
+DEP_KINDS = ["linear2", "asym3", "power3", "logistics4", "exp3"]
+
+# icdf arguments at / next to the ends of [0, 1]; arguments of pdf / cdf far outside any bulk
+TAIL_P = [0.0, 1e-300, 1e-17, 1e-12, 1e-6, 1 - 1e-6, 1 - 1e-12, 1 - 2.0 ** -53, 1.0]
+OUTSIDE_X = [-np.inf, -1e6, -3.0, -1e-9, 0.0, 1e-300, 1e9, 1e300, np.inf]
+B_SHAPES = ["vec-vec", "scalar-scalar", "vec-scalar", "vec-intvec", "list-vec", "vec1-vec1"]
+
+
+def random_spec(rng, ranges, dep_set, const_ok=False):
+    """{param: ("fixed", v) | ("dep", kind, pars)} for one template"""
+    spec = {}
+    for p in ranges:
+        lo, hi = ranges[p]
+        level = float(rng.uniform(lo, hi))
+        if p in dep_set:
+            kind = str(rng.choice(DEP_KINDS))
+            if level <= 0.05:
+                level = 0.3
+            if const_ok and rng.integers(0, 4) == 0:
+                spec[p] = ("dep", "const1", [max(level, 0.2)])
+            else:
+                dp = [float(v) for v in models.random_dep_pars(rng, kind, max(level, 0.2) * 0.7)]
+                spec[p] = ("dep", kind, dp)
+        else:
+            spec[p] = ("fixed", level)
+    return spec
+
+
+def shared_spec(rng, ranges, p_in, p_out):
+    """`p_in` is a dependence function; `p_out`'s dependence function takes THAT function as parameter"""
+    spec = random_spec(rng, ranges, {p_in})
+    lo, hi = ranges[p_out]
+    level = float(rng.uniform(lo, hi))
+    if abs(level) <= 0.05:
+        level = 0.3
+    spec[p_out] = ("outer", [level, float(rng.uniform(0.05, 0.5))], p_in)
+    return spec
+
+
+def spec_values(spec, g):
+    """independent evaluation of every parameter at g (float or float ndarray): the plain callables are called
+    directly, no virocon object involved.  Values are NOT broadcast (a constant function stays a scalar)."""
+    vals = {}
+    for p, sp in spec.items():
+        if sp[0] == "fixed":
+            vals[p] = sp[1]
+        elif sp[0] == "dep":
+            vals[p] = DEP_FUNCS[sp[1]](g, *sp[2])
+    for p, sp in spec.items():
+        if sp[0] == "outer":
+            vals[p] = sp[1][0] * (1 + sp[1][1] * np.tanh(vals[sp[2]]))
+    return {p: vals[p] for p in spec}
+
+
+def build_conditional(cls, spec):
+    """real ConditionalDistribution(template, {param: DependenceFunction}); an ("outer", pars, name) parameter
+    receives the SAME DependenceFunction object that is parameter `name`"""
+    from virocon import DependenceFunction
+    from virocon.distributions import ConditionalDistribution
+
+    kw, pars = {}, {}
+    for p, sp in spec.items():
+        if sp[0] == "fixed":
+            kw["f_" + p] = sp[1]
+        elif sp[0] == "dep":
+            df = DependenceFunction(DEP_FUNCS[sp[1]])
+            df.parameters = dict(zip(df.parameters.keys(), sp[2]))
+            pars[p] = df
+    for p, sp in spec.items():
+        if sp[0] == "outer":
+            df = DependenceFunction(_outer_shared, d=pars[sp[2]])
+            df.parameters = dict(zip(df.parameters.keys(), sp[1]))
+            pars[p] = df
+    # dict in template order (an "outer" parameter may precede its inner one)
+    pars = {p: pars[p] for p in spec if p in pars}
+    return ConditionalDistribution(cls(**kw), pars), len(pars)
 
 
 def gen_family_cases(rng, reps):
     fams = family_table()
     for name, (cls, ranges) in fams.items():
         pars = list(ranges)
-        for r in range(1, len(pars) + 1):
+        for r in range(0, len(pars) + 1):  # r = 0: every parameter fixed
             for dep_set in itertools.combinations(pars, r):
                 for _ in range(reps):
-                    spec = {}
-                    for p in pars:
-                        lo, hi = ranges[p]
-                        level = float(rng.uniform(lo, hi))
-                        if p in dep_set:
-                            kind = str(rng.choice(["linear2", "asym3", "power3", "logistics4", "exp3"]))
-                            if level <= 0.05:
-                                level = 0.3
-                            dp = [float(v) for v in models.random_dep_pars(rng, kind, max(level, 0.2) * 0.7)]
-                            spec[p] = ("dep", kind, dp)
-                        else:
-                            spec[p] = ("fixed", level)
-                    meth = str(rng.choice(METHODS))
-                    k = int(rng.choice([1, 4, 17]))
-                    shape = str(rng.choice(["vec-vec", "scalar-scalar", "vec-scalar"]))
-                    if shape == "scalar-scalar":
-                        k = 1
-                    gs = rng.uniform(0.2, 6.0, k)
-                    if shape == "vec-scalar":
-                        gs = np.full(k, gs[0])
-                    yield {"part": "B", "family": name, "spec": spec, "method": meth, "shape": shape,
-                           "q": [float(v) for v in rng.uniform(0.02, 0.98, k)], "g": [float(v) for v in gs]}
+                    yield family_case(rng, name, random_spec(rng, ranges, dep_set, const_ok=True))
+        for p_in, p_out in itertools.permutations(pars, 2):
+            for _ in range(max(1, reps // 2)):
+                c = family_case(rng, name, shared_spec(rng, ranges, p_in, p_out))
+                c["shared"] = True
+                yield c
+
+
+def family_case(rng, name, spec):
+    meth = str(rng.choice(METHODS))
+    k = int(rng.choice([1, 4, 17]))
+    shape = str(rng.choice(B_SHAPES))
+    if shape in ("scalar-scalar", "vec1-vec1"):
+        k = 1
+    gs = rng.uniform(0.2, 6.0, k)
+    if shape == "vec-intvec":
+        gs = rng.integers(1, 7, k).astype(float)  # handed over as an integer-dtype array
+    if shape == "vec-scalar":
+        gs = np.full(k, gs[0])
+    points = str(rng.choice(["bulk", "bulk", "tail", "outside"]))
+    if points == "tail":
+        q = [float(v) for v in rng.choice(TAIL_P, k)]
+    else:
+        q = [float(v) for v in rng.uniform(0.02, 0.98, k)]
+    case = {"part": "B", "family": name, "spec": spec, "method": meth, "shape": shape, "points": points,
+            "q": q, "g": [float(v) for v in gs]}
+    if points == "outside" and meth != "icdf":
+        case["xo"] = [int(v) for v in rng.integers(0, len(OUTSIDE_X) + 3, k)]
+    return case
 
 
 def process_family(ck, case, fams):
-    from virocon import DependenceFunction
-    from virocon.distributions import ConditionalDistribution
-
     cls, ranges = fams[case["family"]]
-    kw, pars = {}, {}
-    for p, spec in case["spec"].items():
-        if spec[0] == "fixed":
-            kw["f_" + p] = spec[1]
-        else:
-            df = DependenceFunction(models.DEP_FUNCS[spec[1]])
-            df.parameters = dict(zip(df.parameters.keys(), spec[2]))
-            pars[p] = df
+    points = case.get("points", "bulk")
+    n_dep = sum(1 for sp in case["spec"].values() if sp[0] != "fixed")
     ck.case(case, nontrivial=True, sample=ck.evaluations % 97 == 0)
     ck.count("part=B")
     ck.count("B_family=" + case["family"])
-    ck.count("B_n_dependent=" + str(len(pars)))
+    ck.count("B_n_dependent=" + str(n_dep))
+    ck.count("B_shape=" + case["shape"])
+    ck.count("B_points=" + points)
+    if case.get("shared"):
+        ck.count("B_shared_inner_function")
+    if any(sp[0] == "dep" and sp[1] == "const1" for sp in case["spec"].values()):
+        ck.count("B_scalar_valued_dependence_function")
     try:
-        cond = ConditionalDistribution(cls(**kw), pars)
+        cond, _ = build_conditional(cls, case["spec"])
     except Exception as e:  # noqa: BLE001
         ck.fail({"entry": "ConditionalDistribution", "predicate": "constructs", "family": case["family"]}, case,
                 f"{type(e).__name__}: {e}")
         return
     k = len(case["g"])
-    # evaluation points: quantiles of the constructed instance (so that they are in the bulk)
+    # evaluation points: quantiles of the constructed instance (so that they are in the bulk), or the ends of
+    # [0, 1] / points outside the support
     insts, xs = [], []
-    for j in range(k):
-        vals = {}
-        for p, spec in case["spec"].items():
-            vals[p] = spec[1] if spec[0] == "fixed" else float(models.DEP_FUNCS[spec[1]](case["g"][j], *spec[2]))
-        inst = cls(**vals)
-        insts.append(inst)
-        with np.errstate(all="ignore"):
-            xs.append(case["q"][j] if case["method"] == "icdf" else float(np.asarray(inst.icdf(case["q"][j]))))
-    if not np.all(np.isfinite(xs)):
+    with np.errstate(all="ignore"), warnings.catch_warnings():
+        warnings.simplefilter("ignore")
+        for j in range(k):
+            vals = {p: float(v) for p, v in spec_values(case["spec"], float(case["g"][j])).items()}
+            inst = cls(**vals)
+            insts.append(inst)
+            if case["method"] == "icdf":
+                xs.append(case["q"][j])
+            elif "xo" in case:
+                i = case["xo"][j]
+                if i < len(OUTSIDE_X):
+                    xs.append(OUTSIDE_X[i])
+                else:  # at / just below / below the lower end of the support
+                    lo = float(np.asarray(inst.icdf(0.0)))
+                    xs.append([lo, float(np.nextafter(lo, -np.inf)), lo - 0.5][i - len(OUTSIDE_X)])
+            else:
+                xs.append(float(np.asarray(inst.icdf(case["q"][j]))))
+    if points == "bulk" and not np.all(np.isfinite(xs)):
         ck.count("B_skipped_nonfinite")
+        return
+    if np.any(np.isnan(xs)):
+        ck.count("B_skipped_nan_point")
         return
     with np.errstate(all="ignore"), warnings.catch_warnings():
         warnings.simplefilter("ignore")
@@ -265,21 +399,480 @@ def process_family(ck, case, fams):
         ck.fail({"entry": "ConditionalDistribution." + case["method"], "predicate": "result_shape",
                  "family": case["family"]}, case, f"{got.shape} for {k} pairs")
         return
-    if not np.all(np.isfinite(ref)):
+    if points == "bulk" and not np.all(np.isfinite(ref)):
         ck.count("B_skipped_nonfinite")
         return
     if np.array_equal(got.view(np.uint64), ref.view(np.uint64)):
         ck.count("B_bit_exact")
+        if points != "bulk":
+            ck.count("B_nonbulk_" + ("finite" if np.all(np.isfinite(ref)) else "with_inf_or_nan"))
         return
-    tol = 1e-11 * np.maximum(np.abs(ref), 1e-300) + 1e-14
-    if np.all(np.abs(got - ref) <= tol):
+    # inf must be the same inf, nan must be nan; finite values within 1e-11
+    same = (got == ref) | (np.isnan(got) & np.isnan(ref))
+    tol = 1e-11 * np.maximum(np.abs(np.where(np.isfinite(ref), ref, 0.0)), 1e-300) + 1e-14
+    with np.errstate(all="ignore"):
+        close = same | (np.isfinite(got) & np.isfinite(ref) & (np.abs(got - ref) <= tol))
+    if np.all(close):
         ck.count("B_within_1e-11")
         return
-    j = int(np.argmax(np.abs(got - ref) - tol))
-    dep_names = sorted(p for p, s in case["spec"].items() if s[0] == "dep")
+    j = int(np.argmax(~close))
+    dep_names = sorted(p for p, sp in case["spec"].items() if sp[0] != "fixed")
     ck.fail({"entry": "ConditionalDistribution." + case["method"], "predicate": "equals_template_at_dependence_values",
              "family": case["family"], "dependent": dep_names}, case,
-            f"pair {j} (x={xs[j]!r}, g={case['g'][j]!r}): conditional {got[j]!r} constructed template {ref[j]!r}")
+            f"pair {j} (x={xs[j]!r}, g={case['g'][j]!r}, points: {points}): conditional {float(got[j])!r} constructed "
+            f"template {float(ref[j])!r}")
+
+
+# --------------------------------------------------------------------------- (D)
+
+D_SHAPES = ["vector", "intvector", "vec1", "scalar", "intscalar"]
+_CONDSHAPE = {}
+_PENDING = []  # (driver line, callback(answer tokens)): model questions of parts (E)/(F), asked in one batch
+
+
+def flush(ck):
+    """one driver round trip for all deferred model questions"""
+    if not _PENDING:
+        return
+    todo = list(_PENDING)
+    del _PENDING[:]
+    answers = ck.driver.run([line for line, _ in todo])
+    for (_, fn), ans in zip(todo, answers):
+        fn(ans.split())
+
+
+def gen_family_sampling_cases(rng, reps):
+    fams = family_table()
+    for name, (cls, ranges) in fams.items():
+        pars = list(ranges)
+        for r in range(0, len(pars) + 1):
+            for dep_set in itertools.combinations(pars, r):
+                for _ in range(reps):
+                    yield sampling_case(rng, name, random_spec(rng, ranges, dep_set, const_ok=True))
+        for p_in, p_out in itertools.permutations(pars, 2):
+            c = sampling_case(rng, name, shared_spec(rng, ranges, p_in, p_out))
+            c["shared"] = True
+            yield c
+
+
+def sampling_case(rng, name, spec):
+    shape = str(rng.choice(D_SHAPES))
+    k = 1 if shape in ("vec1", "scalar", "intscalar") else int(rng.choice([2, 5, 40]))
+    gs = rng.integers(1, 7, k).astype(float) if shape.startswith("int") else rng.uniform(0.2, 6.0, k)
+    return {"part": "D", "family": name, "spec": spec, "n": int(rng.choice([1, 2, 3, 7])), "shape": shape,
+            "g": [float(v) for v in gs], "seed": int(rng.integers(0, 2**31)),
+            "random_state": str(rng.choice(["int", "generator"]))}
+
+
+def given_for_sampling(shape, gs):
+    if shape == "scalar":
+        return float(gs[0])
+    if shape == "intscalar":
+        return int(gs[0])
+    if shape == "intvector":
+        return np.array(gs).astype(np.int64)
+    return np.array(gs, dtype=float)
+
+
+def _rs(case):
+    return case["seed"] if case["random_state"] == "int" else np.random.default_rng(case["seed"])
+
+
+def compare_sample(ck, case, got, ref, n, k_or_none, raw_shapes, entry_sig):
+    """`got`: the conditional distribution's sample, `ref`: the sample of the template constructed at the
+    dependence values, same seed.  Shape: (n, k) for k conditioning values, (n,) for a scalar one."""
+    want_shape = (n,) if k_or_none is None else (n, k_or_none)
+    got = np.asarray(got, dtype=float)
+    ref = np.asarray(ref, dtype=float)
+    failed = False
+    if got.shape != want_shape:
+        failed = True
+        ck.fail(dict(entry_sig, predicate="n_realisations_per_conditioning_value"), case,
+                f"sample shape {got.shape}, expected {want_shape} (n={n}, given: "
+                f"{'scalar' if k_or_none is None else str(k_or_none) + ' values'})")
+    elif ref.shape != want_shape:
+        ck.count("D_reference_shape_unexpected")  # harness problem, never seen; do not judge
+        return
+    elif np.array_equal(got.view(np.uint64), ref.view(np.uint64)):
+        ck.count("sample_bit_exact")
+    elif np.all(np.abs(got - ref) <= 1e-10 * np.maximum(np.abs(ref), 1e-300) + 1e-13):
+        ck.count("sample_within_1e-10")
+    else:
+        failed = True
+        j = np.unravel_index(int(np.argmax(np.abs(got - ref))), got.shape)
+        ck.fail(dict(entry_sig, predicate="sample_equals_template_sample_same_seed"), case,
+                f"seed {case['seed']}: conditional sample{[int(v) for v in j]} = {float(got[j])!r}, template "
+                f"constructed at the dependence values (given {case['g'][:3]}) gives {float(ref[j])!r}")
+    # model: size handed to the template's sampler
+    line = " ".join(["RUN", "condshape", str(n), "-" if k_or_none is None else str(k_or_none)] + raw_shapes)
+    if line not in _CONDSHAPE:  # a pure function of a few small numbers: ask the model once per distinct line
+        _CONDSHAPE[line] = ck.driver.run([line])[0].split()
+    ans = _CONDSHAPE[line]
+    want = ["OK", "flat", str(n)] if got.ndim == 1 else ["OK", "matrix"] + [str(v) for v in got.shape]
+    if not failed and ans != want:
+        ck.diverge("conditional-sample-size", case, f"impl sample shape {got.shape}, model {' '.join(ans)}")
+
+
+def process_family_sampling(ck, case, fams):
+    cls, ranges = fams[case["family"]]
+    spec = case["spec"]
+    ck.case(case, nontrivial=True, sample=ck.evaluations % 131 == 0)
+    ck.count("part=D")
+    ck.count("D_family=" + case["family"])
+    ck.count("D_given=" + case["shape"])
+    ck.count("D_n=" + ("1" if case["n"] == 1 else ">1"))
+    ck.count("D_n_dependent=" + str(sum(1 for sp in spec.values() if sp[0] != "fixed")))
+    if case.get("shared"):
+        ck.count("D_shared_inner_function")
+    sig = {"entry": "ConditionalDistribution.draw_sample", "family": case["family"]}
+    try:
+        cond, _ = build_conditional(cls, spec)
+    except Exception as e:  # noqa: BLE001
+        ck.fail({"entry": "ConditionalDistribution", "predicate": "constructs", "family": case["family"]}, case,
+                f"{type(e).__name__}: {e}")
+        return
+    scalar = case["shape"] in ("scalar", "intscalar")
+    given = given_for_sampling(case["shape"], case["g"])
+    gf = float(case["g"][0]) if scalar else np.array(case["g"], dtype=float)
+    with np.errstate(all="ignore"), warnings.catch_warnings():
+        warnings.simplefilter("ignore")
+        raw = spec_values(spec, gf)
+        raw_shapes = ["s" if np.ndim(v) == 0 else f"v{len(v)}" for v in raw.values()]
+        vals = {p: (float(v) if scalar else np.broadcast_to(np.asarray(v, dtype=float), gf.shape))
+                for p, v in raw.items()}
+        ref = cls(**vals).draw_sample(case["n"], random_state=_rs(case))
+        try:
+            got = cond.draw_sample(case["n"], given, random_state=_rs(case))
+        except Exception as e:  # noqa: BLE001
+            ck.fail(dict(sig, predicate="evaluates"), case, f"{type(e).__name__}: {e}")
+            return
+    compare_sample(ck, case, got, ref, case["n"], None if scalar else len(case["g"]), raw_shapes, sig)
+
+
+# --------------------------------------------------------------------------- (E), (F): rational doubles
+
+def make_default_func(form, defaults):
+    """a fresh callable f(x, <parameters>) whose SIGNATURE carries `defaults` (None = parameter without a
+    default; those must come first, as Python demands).  form: affine (a, b) | asym (a, b, c) |
+    chained (a, b, d) with d a dependence function."""
+    if form == "affine":
+        def f(x, a, b):
+            return a + b * x
+    elif form == "asym":
+        def f(x, a, b, c):
+            return a + b / (1 + c * x)
+    else:
+        def f(x, a, b, d):
+            return (a + b * x) / d(x)
+    m = sum(1 for d in defaults if d is None)
+    assert all(d is None for d in defaults[:m]) and all(d is not None for d in defaults[m:])
+    tail = tuple(defaults[m:])
+    if form == "chained" and tail:
+        tail = tail + (None,)  # def f(x, a, b=.., d=None)
+    f.__defaults__ = tail or None
+    return f
+
+
+FORM_NAMES = {"affine": ["a", "b"], "asym": ["a", "b", "c"], "chained": ["a", "b"]}
+
+
+def _rat_tokens(s_dep, l_dep):
+    return doubles.ModelDesc([None, 0], [doubles.Dep("fixed", [1.0]), s_dep],
+                             [doubles.Dep("fixed", [0.0]), l_dep]).tokens()
+
+
+def eval_rat(ck, case, cond, s_dep, l_dep, sig):
+    """cdf / icdf / pdf of a ConditionalDistribution over RatDist, built by the caller, against the template
+    constructed at independently evaluated dependence values (bit-exact) and against the Lean model"""
+    meth, k = case["method"], len(case["x"])
+    x, g = call_shape(case["shape"], case["x"], case["g"])
+    try:
+        with np.errstate(all="ignore"):
+            got = np.atleast_1d(np.asarray(getattr(cond, meth)(x, g), dtype=float))
+    except Exception as e:  # noqa: BLE001
+        ck.fail(dict(sig, entry="ConditionalDistribution." + meth, predicate="evaluates"), case,
+                f"{type(e).__name__}: {e}")
+        return
+    ref = np.empty(k)
+    for j in range(k):
+        s, l = s_dep.value(case["g"][j]), l_dep.value(case["g"][j])
+        ref[j] = float(np.asarray(getattr(doubles.RatDist(s=s, l=l), meth)(case["x"][j])))
+    bad = False
+    if got.shape != (k,):
+        bad = True
+        ck.fail(dict(sig, entry="ConditionalDistribution." + meth, predicate="result_shape"), case,
+                f"{got.shape} for {k} pairs")
+    elif not np.array_equal(got.view(np.uint64), ref.view(np.uint64)):
+        bad = True
+        j = int(np.argmax(got != ref))
+        ck.fail(dict(sig, entry="ConditionalDistribution." + meth, predicate="equals_template_at_dependence_values"),
+                case, f"pair {j} (x={case['x'][j]!r}, g={case['g'][j]!r}): conditional {float(got[j])!r} "
+                      f"template {float(ref[j])!r}")
+    line = ["RUN", "cond"] + _rat_tokens(s_dep, l_dep) + ["1", meth, str(k)]
+    for xv, gv in zip(case["x"], case["g"]):
+        line += [str(f2b(xv)), str(f2b(gv))]
+    if bad:
+        return
+
+    def compare(ans):
+        if ans[0] != "OK":
+            ck.diverge("conditional-eval", case, " ".join(ans))
+            return
+        mv = np.array([b2f(v) for v in ans[2:]])
+        if not np.array_equal(mv.view(np.uint64), got.view(np.uint64)):
+            j = int(np.argmax(mv != got))
+            ck.diverge("conditional-eval", case, f"pair {j}: impl {float(got[j])!r} model {float(mv[j])!r}")
+
+    _PENDING.append((" ".join(line), compare))
+
+
+def sample_rat(ck, case, cond, s_dep, l_dep, sig):
+    """draw_sample of a ConditionalDistribution over RatDist vs RatDist at the broadcast dependence values"""
+    sd = case["sampling"]
+    scalar = sd["shape"] in ("scalar", "intscalar")
+    given = given_for_sampling(sd["shape"], sd["g"])
+    c2 = dict(case, seed=sd["seed"], random_state=sd["random_state"], g=sd["g"])
+    if scalar:
+        vals = {"s": s_dep.value(sd["g"][0]), "l": l_dep.value(sd["g"][0])}
+    else:
+        vals = {"s": np.array([s_dep.value(v) for v in sd["g"]]), "l": np.array([l_dep.value(v) for v in sd["g"]])}
+    raw_shapes = [("s" if scalar or d.kind == "fixed" else f"v{len(sd['g'])}") for d in (s_dep, l_dep)]
+    ref = doubles.RatDist(**vals).draw_sample(sd["n"], random_state=_rs(c2))
+    try:
+        with np.errstate(all="ignore"):
+            got = cond.draw_sample(sd["n"], given, random_state=_rs(c2))
+    except Exception as e:  # noqa: BLE001
+        ck.fail(dict(sig, entry="ConditionalDistribution.draw_sample", predicate="evaluates"), case,
+                f"{type(e).__name__}: {e}")
+        return
+    compare_sample(ck, c2, got, ref, sd["n"], None if scalar else len(sd["g"]), raw_shapes,
+                   dict(sig, entry="ConditionalDistribution.draw_sample"))
+
+
+def rat_eval_inputs(rng):
+    meth = str(rng.choice(METHODS))
+    shape = str(rng.choice(["vec-vec", "scalar-scalar", "vec-scalar", "vec1-vec1", "list-vec", "vec-intvec"]))
+    k = 1 if shape in ("scalar-scalar", "vec1-vec1") else int(rng.choice([2, 5, 17]))
+    xs = rng.uniform(0.001, 0.999, k) if meth == "icdf" else 10 ** rng.uniform(-1.5, 1.5, k)
+    gs = 10 ** rng.uniform(-1.0, 1.3, k)
+    if shape == "vec-intvec":
+        gs = rng.integers(1, 20, k).astype(float)
+    if shape == "vec-scalar":
+        gs = np.full(k, gs[0])
+    d = {"method": meth, "shape": shape, "x": [float(v) for v in xs], "g": [float(v) for v in gs]}
+    if rng.integers(0, 3) == 0:
+        sshape = str(rng.choice(D_SHAPES))
+        sk = 1 if sshape in ("vec1", "scalar", "intscalar") else int(rng.choice([2, 5, 40]))
+        sg = rng.integers(1, 20, sk).astype(float) if sshape.startswith("int") else 10 ** rng.uniform(-1, 1.3, sk)
+        d["sampling"] = {"shape": sshape, "g": [float(v) for v in sg], "n": int(rng.choice([1, 2, 3, 7])),
+                         "seed": int(rng.integers(0, 2**31)), "random_state": str(rng.choice(["int", "generator"]))}
+    return d
+
+
+def _random_defaults(rng, form):
+    u = rng.uniform
+    full = {"affine": [u(0.3, 3.0), u(0.0, 0.8)], "asym": [u(0.3, 3.0), u(0.1, 2.0), u(0.05, 1.5)],
+            "chained": [u(0.3, 3.0), u(0.0, 0.5)]}[form]
+    m = int(rng.integers(0, len(full) + 1))  # number of leading parameters WITHOUT a default (implicit 1)
+    return [None] * m + [float(v) for v in full[m:]]
+
+
+def gen_default_cases(rng, n):
+    for _ in range(n):
+        form = str(rng.choice(["affine", "asym", "chained"]))
+        case = {"part": "E", "form": form, "defaults": _random_defaults(rng, form)}
+        if form == "chained":
+            iform = str(rng.choice(["affine", "asym"]))
+            case["inner"] = {"form": iform, "defaults": _random_defaults(rng, iform)}
+        case["l"] = float(rng.choice([0.0, 0.25, 1.0]))
+        nfree = len(FORM_NAMES[form])
+        case["explicit"] = [float(v) for v in rng.uniform(0.3, 2.5, nfree)]
+        case.update(rat_eval_inputs(rng))
+        yield case
+
+
+_CALLMODE = {}
+
+
+def _exp_pars(defaults):
+    return [1.0 if d is None else float(d) for d in defaults]
+
+
+def process_defaults(ck, case):
+    from virocon import DependenceFunction
+    from virocon.distributions import ConditionalDistribution
+
+    form, names = case["form"], FORM_NAMES[case["form"]]
+    ck.case(case, nontrivial=True, sample=ck.evaluations % 151 == 0)
+    ck.count("part=E")
+    ck.count("E_form=" + form)
+    ck.count("E_params_without_default=" + str(sum(1 for d in case["defaults"] if d is None)))
+    sig = {"entry": "DependenceFunction", "input": "signature-defaults"}
+    inner_dep = inner_obj = None
+    try:
+        if form == "chained":
+            # the inner dependence function relies on its signature as well
+            inner_obj = DependenceFunction(make_default_func(case["inner"]["form"], case["inner"]["defaults"]))
+            inner_dep = doubles.Dep(case["inner"]["form"], _exp_pars(case["inner"]["defaults"]))
+            df = DependenceFunction(make_default_func(form, case["defaults"]), d=inner_obj)
+        else:
+            df = DependenceFunction(make_default_func(form, case["defaults"]))
+        cond = ConditionalDistribution(doubles.RatDist(f_l=case["l"]), {"s": df})
+    except Exception as e:  # noqa: BLE001
+        ck.fail(dict(sig, predicate="constructs"), case, f"{type(e).__name__}: {e}")
+        return
+    s_dep = doubles.Dep(form, _exp_pars(case["defaults"]), inner_dep)
+    l_dep = doubles.Dep("fixed", [case["l"]])
+    # model of the parameter dict (correspondence)
+    line = ["RUN", "defaults"]
+    for nme, d in zip(names, case["defaults"]):
+        line += [nme, "-" if d is None else str(f2b(d))]
+    try:
+        impl = ["OK"] + [t for nme, v in df.parameters.items() for t in (nme, str(f2b(float(v))))]
+    except Exception as e:  # noqa: BLE001
+        impl = [f"{type(e).__name__}: {e}"]
+    defaults_line = " ".join(line)
+
+    def value_of(dep, g):
+        return np.array([dep.value(v) for v in np.atleast_1d(g)])
+
+    # (1) the dependence function itself: stored (= signature) parameters
+    g0, gv = float(case["g"][0]), np.array(case["g"], dtype=float)
+    failed = False
+    for garg in (g0, gv):
+        try:
+            with np.errstate(all="ignore"):
+                got = np.atleast_1d(np.asarray(df(garg), dtype=float))
+        except Exception as e:  # noqa: BLE001
+            got = None
+            detail = f"{type(e).__name__}: {e}"
+        want = value_of(s_dep, garg)
+        if got is None or got.shape != want.shape or not np.array_equal(got.view(np.uint64), want.view(np.uint64)):
+            failed = True
+            ck.fail({"entry": "DependenceFunction.__call__", "predicate": "parameters_are_signature_defaults_or_1"}, case,
+                    f"defaults {dict(zip(names, case['defaults']))} (None: no default -> 1): dep({garg!r}) = "
+                    f"{detail if got is None else got[:3].tolist()}, the callable with these values gives {want[:3].tolist()}")
+            break
+    if not failed:
+        _PENDING.append((defaults_line, lambda ans: ans == impl or ck.diverge(
+            "signature-defaults", case, f"impl parameters {impl} model {ans}")))
+    # (2) inside a conditional distribution
+    eval_rat(ck, case, cond, s_dep, l_dep, {"input": "signature-defaults"})
+    if "sampling" in case:
+        ck.count("E_draw_sample")
+        sample_rat(ck, case, cond, s_dep, l_dep, {"input": "signature-defaults"})
+    # (3) explicit-parameter call
+    vals = case["explicit"]
+    nfree = len(names)
+    e_dep = doubles.Dep(form, vals, inner_dep)
+    calls = [("positional", tuple(vals), {}), ("keyword", (), dict(zip(names, vals))),
+             ("mixed", tuple(vals[:1]), dict(zip(names[1:], vals[1:])))]
+    for cnt in range(1, nfree + 2):
+        if cnt != nfree:
+            calls.append((f"wrong-count-{cnt}-positional", tuple((vals + [0.5])[:cnt]), {}))
+            if cnt < nfree:
+                calls.append((f"wrong-count-{cnt}-keyword", (), dict(list(zip(names, vals))[:cnt])))
+    for label, a, kw in calls:
+        for garg in (g0, gv):
+            try:
+                with np.errstate(all="ignore"):
+                    got = np.atleast_1d(np.asarray(df(garg, *a, **kw), dtype=float))
+                w_e, w_s = value_of(e_dep, garg), value_of(s_dep, garg)
+                if got.shape == w_e.shape and np.array_equal(got.view(np.uint64), w_e.view(np.uint64)):
+                    outcome = "explicit"
+                elif got.shape == w_s.shape and np.array_equal(got.view(np.uint64), w_s.view(np.uint64)):
+                    outcome = "stored"
+                else:
+                    outcome = f"other-value {got[:3].tolist()}"
+            except ValueError:
+                outcome = "error"
+            except Exception as e:  # noqa: BLE001
+                outcome = f"raises {type(e).__name__}: {e}"
+            key = (nfree, len(a), len(kw))
+            if key not in _CALLMODE:  # a pure function of three small numbers: ask the model once per triple
+                _CALLMODE[key] = ck.driver.run([f"RUN callmode {nfree} {len(a)} {len(kw)}"])[0].split()[-1]
+            model = _CALLMODE[key]
+            ck.count("E_call=" + label.split("-")[0])
+            if outcome == model:
+                continue
+            if model == "explicit":
+                ck.fail({"entry": "DependenceFunction.__call__", "predicate": "explicit_parameters_are_used",
+                         "call": label}, case,
+                        f"dep({garg!r}, *{a}, **{kw}): {outcome}; the callable with these parameters gives "
+                        f"{value_of(e_dep, garg)[:3].tolist()}")
+            else:
+                ck.diverge("explicit-call-arity", case, f"dep(x, *{a}, **{kw}) with {nfree} free parameters: "
+                                                        f"impl {outcome} model {model}")
+            break
+    # the explicit calls must not have touched the stored parameters
+    try:
+        with np.errstate(all="ignore"):
+            got = np.atleast_1d(np.asarray(df(gv), dtype=float))
+        ok = np.array_equal(got.view(np.uint64), value_of(s_dep, gv).view(np.uint64))
+    except Exception:  # noqa: BLE001
+        ok = False
+    if not ok and not failed:
+        ck.fail({"entry": "DependenceFunction.__call__", "predicate": "explicit_call_leaves_stored_parameters"}, case,
+                "after calls with explicit parameters dep(x) no longer evaluates with the stored parameters")
+
+
+def gen_shared_cases(rng, n):
+    u = rng.uniform
+    for _ in range(n):
+        if rng.integers(0, 2):
+            inner = doubles.Dep("affine", [float(u(0.3, 2.0)), float(u(0.0, 0.6))])
+        else:
+            inner = doubles.Dep("asym", [float(u(0.5, 2.0)), float(u(0.1, 1.0)), float(u(0.1, 1.0))])
+        variant = str(rng.choice(["chained", "ratio-num", "ratio-den", "ratio-both"]))
+        other = doubles.Dep("asym", [float(u(0.5, 2.0)), float(u(0.1, 1.0)), float(u(0.1, 1.0))])
+        case = {"part": "F", "variant": variant, "inner": inner.describe(), "other": other.describe(),
+                "outer_pars": [float(10 ** u(-0.5, 0.5)), float(u(0.0, 0.5))],
+                "inner_is": str(rng.choice(["s", "l"])), "dict_order": str(rng.choice(["inner-first", "outer-first"]))}
+        case.update(rat_eval_inputs(rng))
+        yield case
+
+
+def process_shared(ck, case):
+    from virocon import DependenceFunction
+    from virocon.distributions import ConditionalDistribution
+
+    ck.case(case, nontrivial=True, sample=ck.evaluations % 151 == 0)
+    ck.count("part=F")
+    ck.count("F_variant=" + case["variant"])
+    ck.count("F_shared_function_is_parameter=" + case["inner_is"])
+    inner, other = doubles.dep_from_desc(case["inner"]), doubles.dep_from_desc(case["other"])
+    a, b = case["outer_pars"]
+    v = case["variant"]
+    sig = {"input": "one-dependence-function-object-shared"}
+    try:
+        inner_obj = inner.build()  # ONE object: a template parameter and a parameter of the other function
+        if v == "chained":
+            outer = doubles.Dep("chained", [a, b], inner)
+            outer_obj = DependenceFunction(doubles._chained, d=inner_obj)
+        else:
+            num, den = (inner if v != "ratio-den" else other), (inner if v != "ratio-num" else other)
+            outer = doubles.Dep("ratio", [a], [num, den])
+            outer_obj = DependenceFunction(doubles._ratio, num=inner_obj if v != "ratio-den" else other.build(),
+                                           den=inner_obj if v != "ratio-num" else other.build())
+        outer_obj.parameters = dict(zip(outer_obj.parameters.keys(), outer.pars))
+        i_name = case["inner_is"]
+        o_name = "l" if i_name == "s" else "s"
+        pars = {i_name: inner_obj, o_name: outer_obj}
+        if case["dict_order"] == "outer-first":
+            pars = {o_name: outer_obj, i_name: inner_obj}
+        cond = ConditionalDistribution(doubles.RatDist(), pars)
+    except Exception as e:  # noqa: BLE001
+        ck.fail(dict(sig, entry="ConditionalDistribution", predicate="constructs"), case, f"{type(e).__name__}: {e}")
+        return
+    s_dep, l_dep = (inner, outer) if i_name == "s" else (outer, inner)
+    try:
+        cond.cdf(1.0, 0.123)  # an earlier evaluation at another conditioning value must leave no trace
+    except Exception:  # noqa: BLE001
+        pass
+    eval_rat(ck, case, cond, s_dep, l_dep, sig)
+    if "sampling" in case:
+        ck.count("F_draw_sample")
+        sample_rat(ck, case, cond, s_dep, l_dep, sig)
 
 
 # --------------------------------------------------------------------------- (C)
@@ -327,12 +920,34 @@ def main(ck):
     rng = np.random.default_rng(ck.seed)
     thorough = ck.tier == "thorough"
     ck.rule = ("(A) ConditionalDistribution over rational doubles with random (also chained) dependence functions x "
-               "{cdf, icdf, pdf} x five call shapes, bit-exact vs model and vs constructed template; draw_sample on a "
-               "replayed stream; (B) 8 templates (6 shipped families + two ScipyDistribution subclasses: gamma by scipy_dist_name, Gumbel by scipy_dist, no shape parameter) x every non-empty "
-               "dependent subset of their parameters x random dependence functions x methods x shapes vs constructed "
-               "instances; (C) every keyword-binding position for 3-parameter callables; distinct by SHA1")
+               "{cdf, icdf, pdf} x six call shapes, bit-exact vs model and vs constructed template; draw_sample on a "
+               "replayed stream; (B) 9 templates (7 shipped families incl. LogNormalNormFit + two ScipyDistribution "
+               "subclasses: gamma by scipy_dist_name, Gumbel by scipy_dist, no shape parameter) x EVERY dependent subset of "
+               "their parameters (incl. none: all fixed) x random dependence functions (incl. one returning a scalar for a "
+               "vector) x methods x six shapes (integer-dtype given, list x, length-1 vectors) x points (bulk quantiles / "
+               "p at and next to 0 and 1 / x outside the support, +-inf) vs constructed instances, plus every ordered pair "
+               "(inner, outer) of parameters sharing ONE dependence-function object; (C) every keyword-binding position "
+               "for 3-parameter callables; (D) draw_sample of the same 9 templates x partitions x n in {1,2,3,7} x given "
+               "{float/int vector, length-1 vector, float/int scalar} x seed as int / Generator vs the sample of the "
+               "template constructed at the broadcast dependence values, same seed; (E) dependence callables with "
+               "signature defaults / no defaults (implicit 1), also as the inner of a chained one, never overwritten: "
+               "dep(x), the conditional distribution over the double, explicit-parameter calls (positional, keyword, "
+               "mixed, every wrong count); (F) doubles with one DependenceFunction object as a parameter and inside the "
+               "other parameter's function (chained, ratio numerator / denominator / both); distinct by SHA1")
     ck.assumptions = ["constructed template instances Family(**values) are the reference the property names",
-                      "evaluation points are quantiles 0.02..0.98 of the constructed instance"]
+                      "bulk evaluation points are quantiles 0.02..0.98 of the constructed instance; tail points are "
+                      "p in {0, 1e-300, 1e-17, 1e-12, 1e-6, 1-1e-6, 1-1e-12, 1-2^-53, 1} (or the x they map to), outside "
+                      "points are fixed x in {-inf, -1e6, -3, -1e-9, 0, 1e-300, 1e9, 1e300, inf} and the lower end of the "
+                      "support (exactly / one ulp below / 0.5 below)",
+                      "sampling reference: the template constructed with every parameter broadcast to one value per "
+                      "conditioning value and drawn with the same seed (so the sample is compared bit for bit; that the "
+                      "template's sampler follows the template's law is C07's business)",
+                      "dependence callables only promise to work on numbers and ndarrays: `given` is never a list"]
+    ck.partial = {"sampling: the conditional sample equals the template's sample at the dependence values": "observed per "
+                  "run for every template (same seed, bit for bit); the theorems give the sample SIZE only "
+                  "(cond_sample_shape_vector / _scalar), the samplers are scipy's",
+                  "explicit-parameter call with a wrong number of values raises ValueError": "not part of the property text; "
+                  "compared with the model's callMode as correspondence only"}
     for case in gen_double_cases(rng, 3000 if thorough else 400):
         process_double(ck, case)
     for _ in range(200 if thorough else 40):
@@ -340,6 +955,17 @@ def main(ck):
     fams = family_table()
     for case in gen_family_cases(rng, 40 if thorough else 5):
         process_family(ck, case, fams)
+    for case in gen_family_sampling_cases(rng, 20 if thorough else 3):
+        process_family_sampling(ck, case, fams)
+    for i, case in enumerate(gen_default_cases(rng, 1500 if thorough else 150)):
+        process_defaults(ck, case)
+        if i % 200 == 199:
+            flush(ck)
+    for i, case in enumerate(gen_shared_cases(rng, 1500 if thorough else 150)):
+        process_shared(ck, case)
+        if i % 200 == 199:
+            flush(ck)
+    flush(ck)
     process_binding(ck)
 
 
@@ -347,10 +973,17 @@ def replay(ck, payload):
     case = payload["case"]
     if case.get("part") == "B":
         process_family(ck, case, family_table())
+    elif case.get("part") == "D":
+        process_family_sampling(ck, case, family_table())
+    elif case.get("part") == "E":
+        process_defaults(ck, case)
+    elif case.get("part") == "F":
+        process_shared(ck, case)
     elif case.get("part") == "A" and "method" in case:
         process_double(ck, case)
     elif case.get("kind") == "draw_sample":
         run_double_sampling(ck, case)
+    flush(ck)
     for s, c, d in ck.failures:
         print("oracle:", s, d)
     for op, c, d in ck.divergences:
